@@ -181,6 +181,8 @@ type World struct {
 	Free    bool // free-running (socket tier)
 	// Unsent lists rids that were reset from sent to unsent in this execution.
 	Unsent    map[string]bool
+	sentSeen   map[string]bool
+	prevDataAt map[string]int
 	prevState map[string]int
 
 	snapT     int
@@ -824,14 +826,45 @@ func (w *World) Do(a Action) {
 }
 
 // trackUnsend records the rids whose subscription went from sent back to
-// ready while staying referenced (Subscription.Unsend).
+// ready while staying referenced (Subscription.Unsend): either the state
+// change is seen between two steps, or - when a closure sends the resource
+// and resets it in one go, as the get path does for a resource that a parent
+// references - the client was handed the data of a subscription object that
+// exists before and after the step and is (again) merely ready.
 func (w *World) trackUnsend() {
 	cur := map[string]int{}
+	sent := map[string]bool{}
 	for _, cs := range w.ConnSnaps() {
+		var cl *RefClient
+		for _, c := range w.Conns {
+			if c.CID == cs.CID {
+				cl = c.Client
+			}
+		}
 		for _, s := range cs.Subs {
 			k := cs.CID + " " + s.RID
 			cur[k] = s.State
-			if w.prevState[k] == 5 && s.State == 3 && s.Err == "" {
+			_, existed := w.prevState[k]
+			if existed && w.sentSeen[k] {
+				sent[k] = true
+			}
+			if s.State == 5 {
+				sent[k] = true
+			}
+			if cl != nil && existed {
+				if at, ok := cl.DataAt[s.RID]; ok && at > w.prevDataAt[k] {
+					sent[k] = true
+				}
+			}
+			if cl != nil {
+				if at, ok := cl.DataAt[s.RID]; ok {
+					if w.prevDataAt == nil {
+						w.prevDataAt = map[string]int{}
+					}
+					w.prevDataAt[k] = at
+				}
+			}
+			if sent[k] && s.State == 3 && s.Err == "" {
 				w.mu.Lock()
 				if w.Unsent == nil {
 					w.Unsent = map[string]bool{}
@@ -842,6 +875,7 @@ func (w *World) trackUnsend() {
 		}
 	}
 	w.prevState = cur
+	w.sentSeen = sent
 }
 
 // End runs the end-of-run monitors (call only at full quiescence).
